@@ -487,16 +487,36 @@ package verify
 //@   assigns options.chain, options.collateral, options.pckCertExtensions, options.Now
 //@   ensures[gate] err == nil ==> quoteWF(seq(raw)) && options != nil
 
+// A root-of-trust configuration trusts exactly the certificates it lists: the
+// pool is the fold of AppendCertsFromPEM over the bundle files (in order) and
+// then the inline bundles (in order), starting from the empty pool.
+// poolPrefix(rot, k) is the pool after the first k bundles.
+//@ uf poolPrefix(BV64, BV64) CertPool
+//@ define nPaths(rot) = len(rot.CabundlePaths)
+//@ define nBundles(rot) = len(rot.CabundlePaths) + len(rot.Cabundles)
+
 //@ func getTrustedRoots(rot) (r, err)
 //@   requires rot != nil
+//@   assumes[pool-fold-definition] poolPrefix(addr(rot), 0) == poolEmpty()
+//@ |     && (forall k :: 0 <= k && k < nPaths(rot) ==> poolPrefix(addr(rot), k + 1) == poolAddPEM(poolPrefix(addr(rot), k), fileBytes(rot.CabundlePaths[k])))
+//@ |     && (forall k :: 0 <= k && k < len(rot.Cabundles) ==> poolPrefix(addr(rot), nPaths(rot) + k + 1) == poolAddPEM(poolPrefix(addr(rot), nPaths(rot) + k), strbytes(rot.Cabundles[k])))
 //@   ensures[none] len(rot.CabundlePaths) == 0 && len(rot.Cabundles) == 0 ==> r == nil && err == nil
 //@   ensures[fresh-pool] r != nil ==> fresh(r)
+//@   ensures[configured] err == nil && nBundles(rot) > 0 ==> r != nil
+//@   ensures[exact] err == nil && r != nil ==> *r == poolPrefix(addr(rot), nBundles(rot))
+//@   ensures[every-bundle-has-certs] err == nil ==> (forall k :: 0 <= k && k < nPaths(rot) ==> pemHasCerts(fileBytes(rot.CabundlePaths[k])))
+//@ |     && (forall k :: 0 <= k && k < len(rot.Cabundles) ==> pemHasCerts(strbytes(rot.Cabundles[k])))
+//@   loop 0: invariant result != nil && fresh(result) && *result == poolPrefix(addr(rot), rangeindex + 1)
+//@   loop 0: invariant forall k :: 0 <= k && k <= rangeindex ==> pemHasCerts(fileBytes(rot.CabundlePaths[k]))
+//@   loop 1: invariant result != nil && fresh(result) && *result == poolPrefix(addr(rot), nPaths(rot) + rangeindex + 1)
+//@   loop 1: invariant forall k :: 0 <= k && k <= rangeindex ==> pemHasCerts(strbytes(rot.Cabundles[k]))
 
 //@ func RootOfTrustToOptions(rot) (r, err)
 //@   records rootoftrust
 //@   requires rot != nil
 //@   ensures[flags] err == nil ==> r != nil && r.CheckRevocations == rot.CheckCrl && r.GetCollateral == rot.GetCollateral && r.Now == nil && r.Getter == nil
 //@   ensures[embedded-root-when-unconfigured] err == nil && len(rot.CabundlePaths) == 0 && len(rot.Cabundles) == 0 ==> r.TrustedRoots == nil
+//@   ensures[configured-pool] err == nil && nBundles(rot) > 0 ==> r.TrustedRoots != nil && *r.TrustedRoots == poolPrefix(addr(rot), nBundles(rot))
 
 //@ func SupportedTcbLevelsFromCollateral(quote, options) (tcb, qe, err)
 //@   requires options != nil ==> options.Now != nil
